@@ -94,6 +94,20 @@ def WellScoped (p : PackageIR) : Prop := wellScopedB p = true
 
 instance (p : PackageIR) : Decidable (WellScoped p) := by unfold WellScoped; infer_instance
 
+/-- the parts of `moduleOK` that are NOT yet proved from the generators' models for every input (they are the
+    explicit `Proved_04` conjunct of the partial theorem, evaluated by the driver on every case): the surviving
+    relative imports resolve, every name a class statement / method signature evaluates is bound earlier, forward
+    references name something of the module, every `model_rebuild()` call names a class of the module -/
+def residualParts (p : PackageIR) (m : ModuleIR) : Bool :=
+  importsResolve p m && classesLoad m && forwardRefsOK m && m.rebuilds.all (m.classes.map (·.name)).contains
+
+/-- `Proved_04` as a Bool: the model's own run on this input ends in a package whose generated modules pass
+    `residualParts`, or in a documented refusal -/
+def provedB (cfg : Config) (inp : Input) : Bool :=
+  match (modelRun cfg inp).outcome with
+  | .ok p => p.modules.all fun m => !generated m || residualParts p m
+  | .error e => documentedRefusal e
+
 /-- `file:part` for every violated part (what the driver reports) -/
 def violations (p : PackageIR) : List String :=
   p.modules.flatMap fun m =>
